@@ -184,6 +184,10 @@ def ctrsbox_pgd(xopt, g, H, projections, delta, d_max_iters=100, d_tol=1e-10, us
 
     # Initial guess of L is norm(Hessian)
     L = np.linalg.norm(H, 2)
+    if L == 0.0:
+        # H = 2*J^T*J = 0 means J = 0, so g = 2*J^T*r = 0 too: the model is constant and there is no step to take
+        # (the step length 1/L below would be infinite and the step NaN)
+        return d, gnew, crvmin
 
     # trust region is a ball of radius delta around xopt
     trproj = lambda w: pball(w, xopt, delta)
